@@ -342,7 +342,7 @@ func TestCheck(t *testing.T) {
 		}
 		idx++
 	}
-	for _, c := range udpCases() {
+	for _, c := range udpCasesTier(r.Thorough()) {
 		if r.Mine(idx) {
 			k, d := executeUDP(c)
 			if k == "inconclusive" {
